@@ -14,12 +14,17 @@ spec -> code: MC_C13A / MC_C13S / MC_C13G enumerate the bounded case spaces, che
     case is materialised ({% html_attrs %} through real templates in all documented writing forms;
     Component.render(slots=..., escape_slots_content=...) through chains of real components incl. the
     built-in dynamic component; Component.js / Component.css rendered as a document) and compared.
+    html_attrs results that do not conform (and every 40th that does, as a cross-check of the Python
+    comparison against HtmlAttrs!Conform) go back to TLC, which decides whether a named deviation
+    (HtmlAttrs!DevKey: what the current code does, for every subset of the known defects still being
+    present) predicts exactly this result -> finding key; anything else is a VIOLATION.
 code -> spec: seeded random, deeper cases (more names, longer strings over a wider alphabet, several
-    renders of one compiled template with shared dictionaries, longer slot chains, random end-tag
-    look-alikes) are run on the real code; the raw observations are judged by TLC (Trace_C13) with the
-    same operators.  There TLC also runs its tokenizer model on the real output text and compares with
-    what html.parser read, which binds the model parser to the real parser (disagreement = model_drift,
-    reported in the evidence, never a violation).
+    renders of one compiled template with shared dictionaries, the tag inside a component template and
+    attributes_to_string() called directly, longer slot chains, random end-tag look-alikes) are run on
+    the real code; the raw observations are judged by TLC (Trace_C13) with the same operators.  There TLC
+    also runs its tokenizer model on the real output text and compares with what html.parser read, which
+    binds the model parser to the real parser (disagreement = parser_model_drift, reported in the evidence,
+    never a violation).
 
 Decisions / zones (rule 1):
   * Appending a NUMBER is determined by the property ("appending each extra keyword value ... separated
@@ -34,7 +39,10 @@ Decisions / zones (rule 1):
   * Names with & < > " ' may be entity-escaped by the library (class "weak": count and values checked,
     spelling of the name free).  Names no HTML document can carry (whitespace, "=", "/", empty) must be
     refused, dropped, or emitted as ONE attribute with the right value; anything else is a break-out ->
-    known findings `attr-name-*:written-unchecked`.
+    known finding `attr-name-unrepresentable:written-unchecked`.
+  * Keywords "can be repeated" (docs): every order of repeated keywords must merge left to right; the
+    current code fails when a keyword is repeated after an earlier repeat of another one -> known finding
+    `repeated-keyword-after-earlier-repeat:merged-into-wrong-slot`.
   * Names are lower-case (HTML attribute names are case-insensitive; html.parser lower-cases them);
     repeated `attrs:k=` aggregates, dynamic "{{ }}" expressions and filters inside the tag are not generated
     (docs do not define them for html_attrs); template string literals only without special characters
@@ -43,7 +51,7 @@ Decisions / zones (rule 1):
     False and a later True -> {0, 1}; Slot(..., escaped=True) built by the user -> {0, 1}.  Never 2.
     Raw (unescaped) contents are well-formed HTML fragments so the HTML post-processing is not fuzzed.
   * JS/CSS: content that terminates its own element must be refused or absent; content without any
-    "</" must be emitted intact; look-alikes that do not terminate ("</scriptx", "< /script>") may be
+    "<" must be emitted intact; look-alikes that do not terminate ("</scriptx", "< /script>") may be
     refused or emitted.  No "<!--" in generated JS (script-data escaped states are not modelled).
 """
 from __future__ import annotations
@@ -195,11 +203,14 @@ def render_attrs(tpl, ctx: Dict[str, Any]) -> Dict[str, Any]:
     try:
         out = tpl.render(Context(ctx))
     except Exception as e:  # outcome of the case, judged by the specification
-        return {"err": type(e).__name__, "attrs": [], "spill": False, "out": ""}
+        msg = str(e)
+        kind = "index" if "index out of range" in msg else "multiple-values" if "multiple values for" in msg else \
+            "concat" if ("concatenate" in msg or "unsupported operand" in msg) else "other"
+        return {"err": type(e).__name__, "errkind": kind, "attrs": [], "spill": False, "out": ""}
     if not (out.startswith("<div ") and out.endswith(">")):
         raise MachineryError(f"unexpected frame around html_attrs output: {out!r}")
     obs = parse_tag(out)
-    obs["err"] = ""
+    obs["err"] = obs["errkind"] = ""
     obs["out"] = out[5:-1]
     return obs
 
@@ -241,7 +252,8 @@ def observe_attrs(case: Dict[str, Any]) -> Dict[str, Any]:
     try:
         tpl = Template(src)
     except Exception as e:
-        return {"err": "compile:" + type(e).__name__, "attrs": [], "spill": False, "out": "", "src": src}
+        return {"err": "compile:" + type(e).__name__, "errkind": "other", "attrs": [], "spill": False, "out": "",
+                "src": src}
     obs = render_attrs(tpl, ctx)
     obs["src"] = src
     return obs
@@ -290,28 +302,47 @@ def conforms_attrs(items: List[Dict[str, Any]], err_ok: List[str], obs: Dict[str
     return assign(0, frozenset())
 
 
-def judge_attrs(chk: Check, row: Dict[str, Any], obs: Dict[str, Any], origin: str) -> None:
-    if conforms_attrs(row["items"], row["err"], obs):
+_OBS_FIELDS = ("err", "errkind", "spill", "attrs", "out")
+
+
+def _attrs_event(row: Dict[str, Any], obs: Dict[str, Any]) -> Dict[str, Any]:
+    return {"defaults": row["defaults"], "attrs": row["attrs"], "kws": row["kws"],
+            "obs": {f: obs[f] for f in _OBS_FIELDS}}
+
+
+def judge_attrs(chk: Check, pending: List[Tuple], row: Dict[str, Any], obs: Dict[str, Any], origin: str,
+                n: int) -> None:
+    """Compare with the exported Expected(c).  A result that does not conform is queued for TLC, which
+    decides whether a named deviation predicts it (-> finding key) - and so is every 40th conforming one,
+    as a cross-check of this Python comparison against HtmlAttrs!Conform."""
+    ok = conforms_attrs(row["items"], row["err"], obs)
+    if not ok or n % 40 == 0:
+        pending.append((ok, row, obs, origin))
+
+
+def settle_attrs(chk: Check, pending: List[Tuple]) -> None:
+    if not pending:
         return
-    dev = row.get("dev") or {}
-    key = None
-    if dev.get("key"):
-        if dev["mode"] == "err":
-            same = obs["err"] == dev["err"]
-        elif dev["mode"] == "parse" and obs["err"]:
-            same = obs["err"] in dev["errok"]
-        elif dev["mode"] == "parse":
-            same = not obs["spill"] and \
-                [(a["n"], a["v"], a["bare"]) for a in obs["attrs"]] == [(a["n"], a["v"], a["bare"]) for a in dev["attrs"]]
-        else:
-            same = conforms_attrs(dev["items"], dev["errok"], obs)
-        if same:
-            key = dev["key"]
-    case = {"kind": "html_attrs", "origin": origin,
-            "case": {k: row[k] for k in ("defaults", "attrs", "kws", "vias", "fa", "fd") if k in row},
-            "template": obs.get("src")}
-    chk.violation(case, {"expected_items": row["items"], "errors_admitted": row["err"],
-                         "observed": {k: obs[k] for k in ("err", "attrs", "spill", "out")}}, key=key)
+    if chk.silent and len(pending) > 600:       # probe runs: an evenly spaced sample decides "killed"
+        pending = pending[:: len(pending) // 600 + 1]
+    traces = [{"id": i + 1, "kind": "attrs", "events": [_attrs_event(row, obs)]}
+              for i, (ok, row, obs, origin) in enumerate(pending)]
+    res = judge_traces_with_tlc(traces, batch=4000)
+    for i, (ok, row, obs, origin) in enumerate(pending):
+        why = res["rejected"].get(i + 1)
+        if ok != (why is None):
+            raise MachineryError(f"Python comparison and HtmlAttrs!Conform disagree on {row} / {obs}: TLC says {why}")
+        if why is None:
+            continue
+        m = re.search(r'"dev:([^"]+)"', why["clauses"])
+        case = {"kind": "html_attrs", "origin": origin,
+                "case": {k: row[k] for k in ("defaults", "attrs", "kws", "vias", "fa", "fd") if k in row},
+                "template": obs.get("src")}
+        chk.violation(case, {"expected_items": row["items"], "errors_admitted": row["err"],
+                             "observed": {k: obs[k] for k in ("err", "attrs", "spill", "out")}, "tlc": why},
+                      key=m.group(1) if m else None)
+    chk.add("replays_judged_by_tlc", len(pending))
+    chk.add("parser_model_drift", len(res["drift"]))
 
 
 # ====================================================================== slot content
@@ -397,7 +428,7 @@ def judge_slot(chk: Check, row: Dict[str, Any], obs: Dict[str, Any], origin_tag:
     if not obs["err"] and got in [_canon(t) for t in row["texts"]]:
         times = 0 if got == _canon(row["content"]) else 1
         if times != row["bcount"]:
-            chk.add("model_drift")          # wrapper model predicted another admitted count: not a violation
+            chk.add("wrapper_model_drift")  # wrapper model predicted another admitted count: not a violation
         return
     times = "error" if obs["err"] else 2 if got in map(_canon, row["twice"]) else \
         1 if got in map(_canon, row["once"]) else 0 if got == _canon(row["content"]) else "other"
@@ -463,25 +494,23 @@ def _write_cfg(path: Path, consts: Dict[str, Any], invariants: List[str], proper
 
 
 def _instances(tier: str) -> List[Dict[str, Any]]:
-    """The bounded instances of a tier: (name, module, constants, invariants, ...)."""
+    """The bounded instances of a tier: (name, module, constants, invariants, ...).  The html_attrs
+    "forms" instances are split over several TLC runs (disjoint sets of writing forms)."""
     q = tier != "thorough"
-    return [
-        dict(name="attrs-values", module="MC_C13A", inv=_INV_A, over={"NameClass": "NameClassCached"},
-             consts=dict(Profile="values", MaxKw=2 if q else 3, MaxEntries=9, NNames=1)),
-        dict(name="attrs-forms", module="MC_C13A", inv=_INV_A, over={"NameClass": "NameClassCached"},
-             consts=dict(Profile="forms", MaxKw=2, MaxEntries=3, NNames=2 if q else 3)),
-    ] + ([] if q else [
-        dict(name="attrs-forms-deep", module="MC_C13A", inv=_INV_A, over={"NameClass": "NameClassCached"},
-             consts=dict(Profile="forms", MaxKw=2, MaxEntries=4, NNames=2)),
-    ]) + [
-        dict(name="attrs-names", module="MC_C13A", inv=_INV_A, over={"NameClass": "NameClassCached"},
-             consts=dict(Profile="names", MaxKw=1, MaxEntries=9, NNames=1)),
-        dict(name="attrs-repeat", module="MC_C13A", inv=_INV_A, over={"NameClass": "NameClassCached"},
-             consts=dict(Profile="repeat", MaxKw=5 if q else 6, MaxEntries=9, NNames=3)),
-        dict(name="slots", module="MC_C13S", inv=_INV_S, props=["CountMonotone"],
-             consts=dict(MaxHops=2 if q else 3)),
-        dict(name="guard", module="MC_C13G", inv=_INV_G, consts=dict(MaskMode="few" if q else "all")),
-    ]
+    over = {"NameClass": "NameClassCached"}
+
+    def attrs(name, parts=1, **consts):
+        return [dict(name=name + (f"-{k + 1}of{parts}" if parts > 1 else ""), module="MC_C13A", inv=_INV_A,
+                     over=over, consts=dict(consts, Split=k, Splits=parts)) for k in range(parts)]
+    return (
+        attrs("attrs-forms", 2 if q else 3, Profile="forms", MaxKw=2, MaxEntries=3, NNames=2 if q else 3)
+        + ([] if q else attrs("attrs-forms-deep", 3, Profile="forms", MaxKw=2, MaxEntries=4, NNames=2))
+        + attrs("attrs-values", Profile="values", MaxKw=2 if q else 3, MaxEntries=9, NNames=1)
+        + attrs("attrs-repeat", Profile="repeat", MaxKw=5 if q else 6, MaxEntries=9, NNames=3)
+        + attrs("attrs-names", Profile="names", MaxKw=1, MaxEntries=9, NNames=1)
+        + [dict(name="guard", module="MC_C13G", inv=_INV_G, consts=dict(MaskMode="few" if q else "all")),
+           dict(name="slots", module="MC_C13S", inv=_INV_S, props=["CountMonotone"],
+                consts=dict(MaxHops=2 if q else 3))])
 
 
 def _run_instance(w: Path, inst: Dict[str, Any]) -> Dict[str, Any]:
@@ -506,7 +535,7 @@ def compute_exports(tier: str, only: Optional[List[str]] = None) -> List[Dict[st
     from concurrent.futures import ThreadPoolExecutor
     w = workdir("c13mc")
     insts = [i for i in _instances(tier) if only is None or i["name"] in only]
-    with ThreadPoolExecutor(max_workers=len(insts)) as ex:
+    with ThreadPoolExecutor(max_workers=min(8, len(insts))) as ex:
         return list(ex.map(lambda i: _run_instance(w, i), insts))
 
 
@@ -532,18 +561,20 @@ def _observe_all(items: List[Tuple[str, Dict[str, Any]]], procs: int) -> List[Di
 def replay_exports(chk: Check, exports: List[Dict[str, Any]], procs: int = 6) -> None:
     items = [(e["name"], row) for e in exports for row in e["rows"]]
     obs = _observe_all(items, procs)
-    for (name, row), o in zip(items, obs):
+    pending: List[Tuple] = []
+    for n, ((name, row), o) in enumerate(zip(items, obs)):
         if name.startswith("attrs"):
             nontrivial = bool(row["kws"]) or (bool(row["attrs"]) and bool(row["defaults"])) or \
                 any(it["cls"] != "exact" for it in row["items"])
             chk.count(["a", row["defaults"], row["attrs"], row["kws"], row["vias"], row["fa"], row["fd"]], nontrivial)
-            judge_attrs(chk, row, o, "mc:" + name)
+            judge_attrs(chk, pending, row, o, "mc:" + name, n)
         elif name == "slots":
             chk.count(["s", row["origin"], row["content"], row["hops"]], True)
             judge_slot(chk, row, o, "mc:slots")
         else:
             chk.count(["g", row["kind"], row["s"]], "<" in row["s"])
             judge_guard(chk, row, o, "mc:guard")
+    settle_attrs(chk, pending)
     for e in exports:
         chk.add("states", e["states"])
         chk.add("transitions", e["transitions"])
@@ -669,7 +700,7 @@ def record_attrs_trace(rnd: random.Random, tid: int) -> Dict[str, Any]:
                         ctx["SP0"][key] = prev_ctx["SP0"][key]
         obs = render_attrs(tpl, ctx)
         events.append({"defaults": case["defaults"], "attrs": case["attrs"], "kws": case["kws"],
-                       "obs": {"err": obs["err"], "spill": obs["spill"], "attrs": obs["attrs"], "out": obs["out"]}})
+                       "obs": {f: obs[f] for f in _OBS_FIELDS}})
         prev_ctx, prev_case = ctx, case
     return {"id": tid, "kind": "attrs", "events": events, "src": src0, "fa": fa, "fd": fd, "route": route,
             "vias": [via for _, via, _ in kws_shape]}
@@ -796,7 +827,7 @@ def validate_traces(chk: Check, traces: List[Dict[str, Any]]) -> None:
     chk.add("traces_validated_against_impl", len(traces))
     chk.add("trace_events", sum(len(t["events"]) if t["kind"] == "attrs" else 1 for t in traces))
     chk.add("trace_states", res["states"])
-    chk.add("model_drift", len(res["drift"]))
+    chk.add("parser_model_drift", len(res["drift"]))
     for kind in ("attrs", "slot", "guard"):
         ts = [t for t in traces if t["kind"] == kind]
         if ts:
@@ -837,7 +868,7 @@ def run(tier: str) -> int:
     quick = tier != "thorough"
     exports = compute_exports(tier)
     if quick:
-        _core(chk, exports, n_attrs=1500, n_slots=300, n_guard=1200, procs=6)
+        _core(chk, exports, n_attrs=1200, n_slots=300, n_guard=900, procs=6)
     else:
         _core(chk, exports, n_attrs=15000, n_slots=2500, n_guard=10000, procs=8)
     chk.cov["exhaustive"] = True
@@ -854,7 +885,7 @@ def _trace_of_case(case: Dict[str, Any]) -> Dict[str, Any]:
         c = case["case"]
         obs = observe_attrs(c)
         ev = {"defaults": c["defaults"], "attrs": c["attrs"], "kws": c["kws"],
-              "obs": {f: obs[f] for f in ("err", "spill", "attrs", "out")}}
+              "obs": {f: obs[f] for f in _OBS_FIELDS}}
         return {"id": 1, "kind": "attrs", "events": [ev], "src": obs["src"]}
     if k == "html_attrs_trace":
         events, tpl, prev = [], None, {}
@@ -870,7 +901,7 @@ def _trace_of_case(case: Dict[str, Any]) -> Dict[str, Any]:
             obs = render_attrs(tpl, ctx)
             prev = {var: (c["attrs" if var == "A" else "defaults"], ctx[var]) for var in ("A", "D") if var in ctx}
             events.append({"defaults": e["defaults"], "attrs": e["attrs"], "kws": e["kws"],
-                           "obs": {f: obs[f] for f in ("err", "spill", "attrs", "out")}})
+                           "obs": {f: obs[f] for f in _OBS_FIELDS}})
         return {"id": 1, "kind": "attrs", "events": events, "src": case["template"]}
     if k in ("slot", "slot_trace"):
         origin = case.get("content_origin") or case["origin"]
@@ -1077,7 +1108,7 @@ def selftest(tier: str) -> int:
     # the slots it holds are already flagged `escaped`, nothing changes)
     exports = compute_exports("quick")
     for e in exports:                       # thinned for speed; the instances stay exhaustive in run()
-        if e["name"] == "attrs-forms":
+        if e["name"].startswith("attrs-forms"):
             e["rows"] = e["rows"][::3]
 
     def body_for(prefix: str, n_attrs: int, n_slots: int, n_guard: int):
